@@ -266,3 +266,208 @@ def rule_clone(ctx, F):
                "Clone for %s is #[derive]d (field-wise copy of plain data)" % ty if imp and imp[0]["derived"]
                else "Clone for %s is hand-written or missing: cannot conclude it copies every field" % ty)
     ctx.floor("state fields inspected", n, 18)
+
+
+# ------------------------------------------------------------------ S3 / S4 / merge order ----
+GATES = {"Hasher::reset", "Hasher::update_with_join", "<Hasher as hazmat::HasherExt>::set_input_offset"}
+QUERIES = ["Hasher::finalize", "Hasher::finalize_xof", "Hasher::count", "<Hasher as hazmat::HasherExt>::finalize_non_root",
+           "OutputReader::position", "Hasher::final_output"]
+
+
+def public_entries(F):
+    out = []
+    for p, f in F.fns.items():
+        if not f.has_body or f.kind == "closure":
+            continue
+        if f.j.get("pub") or f.j.get("impl_trait"):
+            out.append(p)
+    return out
+
+
+def rule_S3(ctx, F):
+    """writers funnel: a function that writes Hasher fields is reachable from the public API only
+    through a gate (reset, set_input_offset, zeroize, update_with_join)"""
+    gates = set(GATES)
+    z = zeroize_fn(F)
+    if z:
+        gates.add(z)
+    F.write_summaries()
+    direct = F._wdirect
+    Wf = set()
+    for p, f, i in hasher_mut_fns(F):
+        if any(a == i for a, el in direct.get(p, ())):
+            Wf.add(p)
+        else:
+            # foreign callee handed &mut self.field (ArrayVec::push ...) counts as a direct write
+            for bi, t in f.calls():
+                if F.fn(callee_name(t["callee"])) is None:
+                    for a in t["args"]:
+                        e = f.expr_operand(a)
+                        root, el = path_fields(e)
+                        if root[0] == "arg" and root[1] == i and el and (is_mut_ref_type(a) or (e[0] == "ref" and e[2])):
+                            Wf.add(p)
+    ctx.floor("functions writing Hasher fields", len(Wf), 5)
+    ctx.extra.setdefault("S3_writers", {})[F.cfg] = sorted(Wf)
+    cg = F.callgraph()
+    entries = public_entries(F)
+    # reachability with gates removed
+    seen = set()
+    st = [e for e in entries if e not in gates]
+    seen.update(st)
+    parent = {}
+    while st:
+        x = st.pop()
+        for y in cg.get(x, ()):
+            if y in gates or y in seen:
+                continue
+            seen.add(y)
+            parent[y] = x
+            st.append(y)
+    for w in sorted(Wf - gates):
+        bad = w in seen
+        chain = []
+        if bad:
+            x = w
+            while x in parent and len(chain) < 8:
+                chain.append(x)
+                x = parent[x]
+            chain.append(x)
+        ctx.ob(not bad, "writer-behind-gate:%s" % w, F.fns[w].loc,
+               "reachable from the public API only through a gate" if not bad else "reachable without a gate: %s" % " <- ".join(chain))
+    # the absorbing entry points hand their own slice to the one update_with_join
+    for name, join in (("Hasher::update", "join::SerialJoin"), ("Hasher::update_rayon", "join::RayonJoin")):
+        fn = F.fn(name)
+        if fn is None:
+            if name == "Hasher::update":
+                raise MissingAnchor(name)
+            continue
+        cs = [(bi, t) for bi, t in fn.calls()]
+        ok = len(cs) == 1 and callee_name(cs[0][1]["callee"]) == "Hasher::update_with_join" and cs[0][1]["callee"].get("args") == [join] \
+            and val(fn.expr_call(cs[0][1]))[2] == (("arg", 1, "self"), ("arg", 2, "input"))
+        ctx.ob(ok, "absorb-funnel:%s" % name, fn.loc, "%s = update_with_join::<%s>(self, input): %s" % (name, join, ok))
+
+
+def rule_S4(ctx, F):
+    """queries are pure by type: &self receivers, and no shared-to-mutable pointer laundering in
+    anything they reach inside the tree logic"""
+    n = 0
+    for q in QUERIES:
+        fn = F.fn(q)
+        if fn is None:
+            raise MissingAnchor(q)
+        recv = fn.j["params"][0] if fn.j.get("params") else "?"
+        ctx.ob(recv.startswith("&") and not recv.startswith("&mut"), "query-shared-receiver:%s" % q, fn.loc, "%s(%s, ..)" % (q, recv))
+    reach = F.reachable_fns(QUERIES)
+    for p in sorted(reach):
+        fn = F.fns[p]
+        if not fn.has_body:
+            continue
+        n += 1
+        for bi, si, s in fn.stmts():
+            if s["k"] != "assign":
+                continue
+            rv = s["rv"]
+            launder = None
+            if rv["k"] == "cast" and rv["ty"].startswith("*mut") and (rv["from"].startswith("*const") or rv["from"].startswith("&") and not rv["from"].startswith("&mut")):
+                launder = "cast %s -> %s" % (rv["from"], rv["ty"])
+            if rv["k"] == "rawptr" and rv["mut"]:
+                e = fn.expr_place(rv["place"])
+                root, el = path_fields(e)
+                if root[0] == "arg" and fn.locals[root[1]]["ty"].startswith("&") and not fn.locals[root[1]]["ty"].startswith("&mut"):
+                    launder = "&raw mut through shared parameter %s" % fn.names.get(root[1])
+            if launder:
+                ctx.ob(False, "no-mut-laundering:%s" % p, s.get("s"), "%s in %s, reachable from a &self query" % (launder, p))
+    ctx.ob(True, "no-mut-laundering:scan", "", "scanned %d function bodies reachable from the queries" % n)
+    ctx.floor("bodies reachable from the &self queries", n, 10)
+    # root compressions are not reachable from the absorbing path (structural content of lazy merging)
+    upd = F.reachable_fns(["Hasher::update_with_join"])
+    for r in ("Output::root_hash", "Output::root_output_block", "OutputReader::fill", "OutputReader::new"):
+        ctx.ob(r not in upd, "no-root-on-update-path:%s" % r, F.fns[r].loc if r in F.fns else "", "%s reachable from update_with_join: %s" % (r, r in upd))
+
+
+def origin_local(fn, operand):
+    """follow copy/move/ref/reborrow chains of single-definition temporaries back to a base local"""
+    if operand["k"] not in ("copy", "move"):
+        return None
+    l = operand["place"]["l"]
+    for _ in range(20):
+        ds = [d for d in fn.defs().get(l, []) if d[0] in ("assign", "call")]
+        if len(ds) != 1 or ds[0][0] != "assign":
+            return l
+        rv = ds[0][3]["rv"]
+        if rv["k"] == "use" and rv["op"]["k"] in ("copy", "move"):
+            l = rv["op"]["place"]["l"]
+        elif rv["k"] in ("ref", "rawptr"):
+            l = rv["place"]["l"]
+        else:
+            return l
+    return l
+
+
+def _src_call_block(fn, operand, callee_suffix):
+    """block of the `callee_suffix` call (e.g. pop) whose unwrapped result is the value behind operand"""
+    l = origin_local(fn, operand)
+    if l is None:
+        return None
+    for d in fn.defs().get(l, []):
+        if d[0] == "call" and d[2]["args"]:
+            il = origin_local(fn, d[2]["args"][0])
+            for d2 in fn.defs().get(il, []):
+                if d2[0] == "call" and norm_path(callee_name(d2[2]["callee"])).endswith(callee_suffix):
+                    return d2[1]
+    return None
+
+
+def rule_merge_order(ctx, F):
+    m = F.need_fn("Hasher::merge_cv_stack")
+    pn = [(bi, t) for bi, t in m.calls() if callee_name(t["callee"]) == "parent_node_output"]
+    ctx.ob(len(pn) == 1, "merge-one-parent", m.loc, "%d parent_node_output call(s) in merge_cv_stack" % len(pn))
+    for bi, t in pn:
+        lb = _src_call_block(m, t["args"][0], "ArrayVec::<T, CAP>::pop")
+        rb = _src_call_block(m, t["args"][1], "ArrayVec::<T, CAP>::pop")
+        ok = lb is not None and rb is not None and lb != rb and m.dominates(rb, lb)
+        ctx.ob(ok, "merge-pop-order", t.get("s"), "right child is popped first (block %s), left child second (block %s): %s" % (rb, lb, ok))
+        e = val(m.expr_call(t))
+        ctx.ob(e[2][2:] == (P.self_("key"), P.self_("chunk_state", "flags"), P.self_("chunk_state", "platform")), "merge-key-flags", t.get("s"),
+               "parent_node_output(_, _, %s)" % ", ".join(show(a) for a in e[2][2:]))
+        pushes = [(b2, val(m.expr_call(t2))) for b2, t2 in m.calls() if norm_path(callee_name(t2["callee"])).endswith("ArrayVec::<T, CAP>::push")]
+        ok = len(pushes) == 1 and pushes[0][1][2][1][0] == "call" and pushes[0][1][2][1][1] == "Output::chaining_value"
+        ctx.ob(ok, "merge-pushes-non-root-cv", t.get("s"), "merged node is pushed as chaining_value(): %s" % ok)
+    fo = F.need_fn("Hasher::final_output")
+    pns = [(bi, val(fo.expr_call(t)), t.get("s")) for bi, t in fo.calls() if callee_name(t["callee"]) == "parent_node_output"]
+    ctx.ob(len(pns) == 2, "final-two-parent-sites", fo.loc, "%d parent_node_output call(s) in final_output" % len(pns))
+    N = W("n")
+    IDX = lambda k: ("path", ("call", W(pred=lambda s: isinstance(s, str) and "Deref" in s), (P.self_("cv_stack"),)), (("idx", P.bin("Sub", N, P.const(k))),))
+    for bi, e, where in pns:
+        a = e[2]
+        pair = unify((IDX(2), IDX(1)), (a[0], a[1]))
+        fold = unify(IDX(1), a[0]) is not None and a[1][0] == "call" and a[1][1] == "Output::chaining_value"
+        ctx.ob(pair is not None or fold, "final-merge-operands", where,
+               "parent_node_output(%s, %s, ..) ; required (stack[n-2], stack[n-1]) or (stack[n-1], output.chaining_value())" % (show(a[0])[:60], show(a[1])[:60]))
+        ctx.ob(a[2:] == (P.self_("key"), P.self_("chunk_state", "flags"), P.self_("chunk_state", "platform")), "final-merge-key-flags", where, "key/flags/platform from self")
+    # update_with_join pushes (left half, right half) of the returned pair in order
+    u = F.need_fn("Hasher::update_with_join")
+    pcs = [(bi, val(u.expr_call(t)), t.get("s")) for bi, t in u.calls() if callee_name(t["callee"]) == "Hasher::push_cv"]
+    halves = []
+    CC = P.self_("chunk_state", "chunk_counter")
+    for bi, e, where in pcs:
+        a = e[2]
+        off = find_sub(a[1], ("adt", W(pred=lambda s: isinstance(s, str) and s.endswith("Range")), W(), W(), (P.const(0), W())))
+        off32 = find_sub(a[1], ("adt", W(pred=lambda s: isinstance(s, str) and s.endswith("Range")), W(), W(), (P.const(32), W())))
+        pair = find_sub(a[1], ("call", "compress_subtree_to_parent_node", W())) is not None
+        if off is not None and pair:
+            halves.append(("left", bi, a[2] == CC, where))
+        elif off32 is not None and pair:
+            want = P.bin("Add", CC, P.bin("Div", W(), P.const(2)))
+            halves.append(("right", bi, unify(want, a[2]) is not None, where))
+    ok = len(halves) == 2 and halves[0][0] != halves[1][0]
+    if ok:
+        l = [h for h in halves if h[0] == "left"][0]
+        r = [h for h in halves if h[0] == "right"][0]
+        ok = u.dominates(l[1], r[1]) and l[2] and r[2]
+    ctx.ob(ok, "update-pushes-left-then-right", u.loc, "push_cv(cv_pair[0..32], counter) dominates push_cv(cv_pair[32..64], counter + subtree_chunks/2): %s" % ok)
+    pc = F.need_fn("Hasher::push_cv")
+    cs = [(bi, val(pc.expr_call(t))) for bi, t in pc.calls()]
+    ok = len(cs) == 2 and cs[0][1][1] == "Hasher::merge_cv_stack" and cs[0][1][2] == (("arg", 1, "self"), ("arg", 3, "chunk_counter")) \
+        and norm_path(cs[1][1][1]).endswith("ArrayVec::<T, CAP>::push") and pc.dominates(cs[0][0], cs[1][0])
+    ctx.ob(ok, "push_cv-merges-then-pushes", pc.loc, "push_cv = merge_cv_stack(chunk_counter); cv_stack.push(new_cv): %s" % ok)
